@@ -528,9 +528,58 @@ def handleLoop (st : Stats) (line : String) (rest : List String) : IO Stats := d
     let mut k := 0
     let mut alrm := 0      -- an ALRM was delivered inside a select: the snapshot of the select after that one is taken after pqrun()
     let mut nalrm := 0
+    -- back-off across clean restarts (black box on the delivery commands and reports): a recipient reported Z in a pass whose
+    -- retry time is R must not be started again before R, in this or a later daemon process, unless an ALRM intervened
+    let mut orcKnown : Option String := none
+    let mut inc := 1
+    let mut cmds : List (Nat × (Nat × Nat × String × Int × Bool)) := []          -- attempt ↦ chan, id, recipient, retry, dying
+    let mut owed : List ((Nat × Nat × String) × (Int × Nat × Int)) := []         -- (chan, id, recipient) ↦ R, daemon #, time of the Z
+    let mut cut : List (Nat × Nat × Nat) := []                                   -- (daemon #, chan, id): pass open when that daemon exited
+    let mut nrestart := 0
+    let mut npcut := 0
+    let mut nowedAcross := 0
     for t in (if recs == "-" then [] else recs.splitOn ";") do
       if t.startsWith "g:" && t.endsWith ":A" then
         alrm := 2
+        owed := []
+      else if t.startsWith "i:" then
+        match t.splitOn ":" with
+        | ["i", _, n] =>
+          inc := n.toNat?.getD inc
+          if inc > 1 then nrestart := nrestart + 1
+        | _ => pure ()
+      else if t.startsWith "c:" then
+        match t.splitOn ":" with
+        | ["c", ts, cs, ids, _, att, rs, dy, recip] =>
+          match ts.toInt?, cs.toNat?, ids.toNat?, att.toNat?, rs.toInt? with
+          | some tc, some ch, some id, some a, some retry =>
+            let key := (ch, id, recip)
+            match owed.find? (·.1 == key) with
+            | some (_, (r, zi, tz)) =>
+              if zi < inc then nowedAcross := nowedAcross + 1
+              if tc < r then
+                let known := zi < inc && cut.any (fun (i, c, m) => i == zi && c == ch && m == id)
+                let msg := s!"recipient {recip} of message {id} (channel {ch}) was reported Z at {tz} (T0+{tz - 1000000000}) in a pass with retry time {r} (T0+{r - 1000000000}); it is started again at {tc} (T0+{tc - 1000000000}), {r - tc} s before its back-off time, by daemon #{inc} (the Z was seen by daemon #{zi}{if known then "; its pass on this message was still open when it exited after TERM, so job_close never re-inserted it and pqfinish did not stamp the channel file" else ""})"
+                if known then
+                  if orcKnown.isNone then orcKnown := some msg
+                else
+                  if orc.isNone then orc := some msg
+            | none => pure ()
+            owed := owed.filter (fun x => !(x.1 == key))
+            cmds := (a, (ch, id, recip, retry, dy == "1")) :: cmds
+          | _, _, _, _, _ => if dis.isNone then dis := some s!"unparsable command record {t}"
+        | _ => if dis.isNone then dis := some s!"unparsable command record {t}"
+      else if t.startsWith "r:" then
+        match t.splitOn ":" with
+        | ["r", ts, _, _, letter, att] =>
+          match ts.toInt?, att.toNat? with
+          | some tr, some a =>
+            match cmds.find? (·.1 == a) with
+            | some (_, (ch, id, recip, retry, dying)) =>
+              if letter == "Z" && !dying then owed := ((ch, id, recip), (retry, inc, tr)) :: owed.filter (fun x => !(x.1 == (ch, id, recip)))
+            | none => if dis.isNone then dis := some s!"report for an unknown attempt {t}"
+          | _, _ => if dis.isNone then dis := some s!"unparsable report record {t}"
+        | _ => if dis.isNone then dis := some s!"unparsable report record {t}"
       else if t.startsWith "s:" then
         match parseSel t with
         | none => if dis.isNone then dis := some s!"unparsable select record {t}"
@@ -570,7 +619,15 @@ def handleLoop (st : Stats) (line : String) (rest : List String) : IO Stats := d
       else if t.startsWith "x:" then
         ended := true
         match t.splitOn ":" with
-        | ["x", code, crashed, _] => if (code != "0" || crashed != "0") && dis.isNone then dis := some s!"daemon ended with exit={code} crashed={crashed}"
+        | ["x", code, crashed, _, p0, p1] =>
+          if (code != "0" || crashed != "0") && dis.isNone then dis := some s!"daemon ended with exit={code} crashed={crashed}"
+          for (c, ps) in [(0, p0), (1, p1)] do
+            match ps.toNat? with
+            | some m =>
+              if m != 0 then
+                cut := (inc, c, m) :: cut
+                npcut := npcut + 1
+            | none => pure ()
         | _ => if dis.isNone then dis := some s!"unparsable end record {t}"
       else pure ()
     if !ended && dis.isNone then dis := some "no end record"
@@ -582,6 +639,9 @@ def handleLoop (st : Stats) (line : String) (rest : List String) : IO Stats := d
     st := bumpN st "loop_sleeps_ended_by_a_startable_due_time" ncut
     st := bumpN st "loop_blocked_sleeps_with_pqfail_entry" nbFail
     st := bumpN st "loop_alrm_checked" nalrm
+    st := bumpN st "loop_clean_restarts" nrestart
+    st := bumpN st "loop_passes_cut_short_by_term" npcut
+    st := bumpN st "loop_deferred_recipients_restarted_by_a_later_daemon" nowedAcross
     st := bumpN st "loop_blocked_sleeps_with_pqdone_entry" nbDone
     st := bumpN st "loop_blocked_sleeps_with_entry_on_an_idle_channel" nbChan
     st := bumpN st "loop_blocked_sleeps_with_entry_on_the_blocked_channels_own_heap" nbOwn
@@ -593,6 +653,11 @@ def handleLoop (st : Stats) (line : String) (rest : List String) : IO Stats := d
     match orc with
     | some w =>
       IO.println s!"ORACLE in=W,{scen} what={(w.replace " " "_").take 1200}"
+      st := { st with oracle := st.oracle + 1 }
+    | none => pure ()
+    match orcKnown with
+    | some w =>
+      IO.println s!"ORACLE in=W,{scen} what={(w.replace " " "_").take 1200} known=C15-term-midpass"
       st := { st with oracle := st.oracle + 1 }
     | none => pure ()
     if st.samples < 2 && fresh && nblockedStartable > 0 && ncut > 0 && scen.length < 200 then
